@@ -332,7 +332,7 @@ def _c04_floors(m, tier):
         out.append("only %d of 17 entry-point groups driven" % len(m.cov.get("entry_point", {})))
     out += need(m, "stream_tag_byte", range(256), "authentic stream messages with every tag byte")
     out += need(m, "content_class", ["zeros", "ff", "random", "valid_prefix", "valid_mutated", "valid"], "content classes")
-    out += need(m, "pwhash_family", ["grammar", "structural_mutation", "parameter_list", "base64", "random_bytes(lossy utf8)", "separator_runs", "valid", "valid_one_char_mutated"], "password-string families")
+    out += need(m, "pwhash_family", ["grammar", "structural_mutation", "parameter_list", "base64", "random_bytes(lossy utf8)", "separator_runs", "valid", "valid_one_char_mutated", "single_edit_insert", "single_edit_replace", "single_edit_delete"], "password-string families")
     if len(m.cov.get("shorter_than_overhead", {})) < 16:
         out.append("inputs shorter than the fixed overhead not presented to every entry point")
     if not m.cov.get("pwhash_verify_reached"):
@@ -445,13 +445,13 @@ PROPS["C10"] = dict(
 
 def _c11_floors(m, tier):
     n = len(m.cov.get("entry_point", {}))
-    return [] if n >= 47 else ["only %d of 47 randomised entry points (37 stable + 10 heap/locked) exercised" % n]
+    return [] if n >= 50 else ["only %d of 50 randomised entry points (40 stable + 10 heap/locked) exercised" % n]
 
 
 PROPS["C11"] = dict(
     level="exploration",
     technique="runtime history monitoring: N consecutive calls of every randomised entry point, statistical oracle with explicit false-alarm bound (distinctness, non-zero, per-byte variability)",
-    level_text="47 entry points (byte-array gen() on every container, all keygen/keypair functions, object-API generators, sealed-box ephemeral key, stream header, password-hash salts from the object and the string API; "
+    level_text="50 entry points (byte-array gen() on every container, all keygen/keypair functions, object-API generators, sealed-box ephemeral key, stream header, password-hash salts from the object and the string API; "
                "heap / locked / read-only-locked variants on nightly) are each called 256 (quick) / 1024 (thorough) times in a row; no value may repeat, be all-zero, or have a byte position that never changes. "
                "A finite number of calls cannot prove independence; the test detects constant, partially constant, zero and repeating outputs.",
     level_note="False-alarm probability per run < 2^-100 (distinctness and non-zero tests only on values of >= 16 bytes; a byte position constant over 256 uniform draws has probability 256^-255).",
